@@ -61,7 +61,7 @@ UNIT = Unit(
            loop_fn=lambda k, header, kw: ANY_INV(header)),
         Fn(file=M, name="fn_is_generic", ret="r", attrs="#[verifier::loop_isolation(false)]", rules=["attrs", ("strip", "core::"), "iter_any"],
            obligation="a function is treated as generic exactly when it declares generics or its parameter / result types mention a type parameter",
-           rewrites=[("!f.generics.is_empty()", "f.generics.len() > 0")],
+           rewrites=[("!f.generics.is_empty()", "f.generics.len() > 0", "*"), ("f.generics.is_empty()", "f.generics.len() == 0", "*")],
            contract="ensures r == sig_mentions_tparam(*f),",
            loop_fn=lambda k, header, kw: ("invariant __i0 <= f.params@.len(), !__r0 ==> forall|j: int| 0 <= j < __i0 ==> !mentions_tparam((#[trigger] f.params@[j]).1),\n"
                                           "  __r0 ==> exists|j: int| 0 <= j < f.params@.len() && mentions_tparam((#[trigger] f.params@[j]).1),\ndecreases f.params@.len() - __i0,")),
